@@ -150,7 +150,7 @@ def rule_guard(c: Ctx) -> RuleResult:
     cfg = c.cfg(f)
     r.functions += 1
     dom = cfg.dominators()
-    loops = [n for n in own_nodes(f.node) if isinstance(n, ast.While) and any(isinstance(x, ast.Attribute) and x.attr == "index" for x in ast.walk(n))]
+    loops = [n for n in own_nodes(f.node) if isinstance(n, ast.While) and any(isinstance(x, ast.Attribute) and x.attr in ("index", "find") for x in ast.walk(n))]
     if not loops:
         loops = [n for n in own_nodes(f.node) if isinstance(n, ast.While) and isinstance(n.test, ast.Constant)]
     if not loops:
@@ -183,6 +183,16 @@ def rule_guard(c: Ctx) -> RuleResult:
                     if not (isinstance(n.ast, ast.Return)):
                         exits.append(m)
                 elif m.kind == "dispatch":
+                    exits.append(m)
+    # ... and the exit through the loop's own test (`while matchStart != -1:` - the search ran off the end)
+    in_test = {id(x) for x in ast.walk(loop.test)} if not isinstance(loop.test, ast.Constant) else set()
+    whole = {id(x) for x in ast.walk(loop)}
+    for n in cfg.nodes:
+        if n.kind == "test" and n.ast is not None and id(n.ast) in in_test:
+            for (m, l) in n.succ:
+                if l in ("T", "F") and m is not head and not (m.ast is not None and id(m.ast) in whole) and m is not cfg.exit:
+                    exits.append(m)
+                elif l in ("T", "F") and m is cfg.exit:
                     exits.append(m)
     bad = _must_pass(cfg, exits, scanned_store, lambda n: n is cfg.exit) if exits else cfg.exit
     r.add("backtick|scanned", c.where(f, loop), f.short, f"{st}.backticksScanned = True", "discharged" if bad is None else "violation",
